@@ -270,7 +270,11 @@ func (f *LogFile) Measurement(name []byte) MeasurementElem {
 		return nil
 	}
 
-	return mm
+	// Hand out a copy taken under the lock: callers read the element (its
+	// deleted flag) without the lock while new series entries keep updating
+	// the original.
+	cp := *mm
+	return &cp
 }
 
 func (f *LogFile) MeasurementHasSeries(ss *tsdb.SeriesIDSet, name []byte) bool {
